@@ -35,7 +35,7 @@ func init() {
 		Generate: c09Generate,
 		Run:      c09Run,
 		Require: func(string) map[string]int64 {
-			return map[string]int64{"hash": 1000, "reduce": 5000, "reduce:multiple-of-n": 50, "reduce:result<3": 20, "dst:oversize": 50, "panic:empty-dst": 3, "reduce:top-bits-set": 500, "reuse-sequences": 100, "concurrent-batches": 4}
+			return map[string]int64{"hash": 1000, "reduce": 5000, "reduce:multiple-of-n": 50, "reduce:result<3": 20, "dst:oversize": 50, "panic:empty-dst": 3, "reduce:top-bits-set": 500, "reuse-sequences": 100, "concurrent-batches": 4, "sequences": 100}
 		},
 	})
 
@@ -220,6 +220,11 @@ func h2cGenerateWrapped(c *mon.Ctx, nRandom int) {
 		}
 
 		cs := &c09Case{Kind: "hash", H: h, Cls: "concurrent"}
+		c.Structured(func() any { return cs })
+	}
+
+	for _, h := range h2cExtraCases(c, []string{"H2S"}) {
+		cs := &c09Case{Kind: "hash", H: *h, Cls: h.Class}
 		c.Structured(func() any { return cs })
 	}
 
